@@ -12,6 +12,7 @@ import Driver.C05
 import Driver.C16
 import Driver.Wild
 import Driver.Config
+import Driver.C19
 
 open Corerad
 
@@ -22,7 +23,8 @@ def handlers : List (String × (List String → List String → Option Verdict))
   ("wd", Driver.Wild.wd), ("wderr", Driver.Wild.wderr),
   ("wr", Driver.Wild.wr), ("wrerr", Driver.Wild.wrerr),
   ("cfg", Driver.Config.cfg), ("fuzz", Driver.Config.fuzz),
-  ("ra1", Driver.Config.ra1), ("ra3", Driver.Config.ra3), ("ra4", Driver.Config.ra4)
+  ("ra1", Driver.Config.ra1), ("ra3", Driver.Config.ra3), ("ra4", Driver.Config.ra4),
+  ("ws", Driver.C19.ws), ("wsu", Driver.C19.wsu)
 ]
 
 def runLine (line : String) : String :=
